@@ -153,6 +153,7 @@ fn classify(c: &Case, obs: &mut Obs) {
     obs.class_if(c.offsets.iter().any(|o| *o != 0.0), "offset_columns");
     obs.class_if(c.offsets.iter().any(|o| o.abs() >= 100.0), "offset_large");
     obs.class_if(c.global_exp != 0, "global_scale!=1");
+    obs.class_if(c.global_exp < 0, "small_magnitude");
     obs.class_if(c.k == 1, "k=1");
     obs.class_if(c.k == c.p, "k=p");
     obs.class_if(c.k > 1 && c.k < c.p, "1<k<p");
@@ -201,7 +202,7 @@ pub fn check_pca(c: &Case, obs: &mut Obs) {
     let lam1 = lam.first().copied().unwrap_or(0.0);
     // constant (or constant up to round-off) data is not in the generator's domain; shrinking can reach it
     let x_max0 = max_abs(&x);
-    if !(lam1 > 1e-16 * x_max0 * x_max0) || !lam1.is_finite() || (n as f64 - 1.0) * lam1 < SCALE_MIN {
+    if !(lam1 > 1e-16 * x_max0 * x_max0) || !lam1.is_finite() || (std::env::var("C18_MEAS").is_err() && (n as f64 - 1.0) * lam1 < SCALE_MIN) {
         obs.skip("degenerate_covariance");
         return;
     }
